@@ -261,12 +261,31 @@ def implies(a, b):
     return or_(not_(a), b)
 
 
+def as_int(t):
+    """an Int-sorted term equal to the Real-sorted term t when t is built from integers by + and * only; else None"""
+    if t.sort == I:
+        return t
+    if t.op == 'const':
+        return const(t.args[0], I) if t.args[0].denominator == 1 else None
+    if t.op == 'toreal':
+        return t.args[0]
+    if t.op in ('add', 'mul'):
+        x, y = as_int(t.args[0]), as_int(t.args[1])
+        if x is None or y is None:
+            return None
+        return add(x, y) if t.op == 'add' else mul(x, y)
+    return None
+
+
 def floor(a):
     if a.sort == I:
         return a
     if a.op == 'const':
         q = a.args[0]
         return const(q.numerator // q.denominator, I)
+    ai = as_int(a)
+    if ai is not None:
+        return ai
     return _mk('floor', (a,), I)
 
 
@@ -277,6 +296,9 @@ def ceil(a):
 def trunc(a):
     if a.sort == I:
         return a
+    ai = as_int(a)
+    if ai is not None:
+        return ai
     return ite(ge(a, ZERO), floor(a), ceil(a))
 
 
